@@ -180,4 +180,49 @@ VARIANTS = [
     ('c20-pad', 'C20', NRM, "seg_data.set('GE01', '%i' % (src.st_count))", "seg_data.set('GE01', '%02i' % (src.st_count))", B, 'C20.R3'),
     ('c20-inplace-lost', 'C20', NRM, "fd_orig.write(fd_out.read())", "fd_orig.write('')", B, 'C20.R2'),
     ('c20-output-lost', 'C20', NRM, "                with open(args.outputfile, mode='w', encoding='ascii') as fd_final:\n                    fd_final.write(fd_out.read())", "                fd_out = open(args.outputfile, mode='w', encoding='ascii')", B, 'C20.R2'),
+    # ---------------------------------------------------------------- round 9 rules
+    ('c04-pop-keeps-list', 'C04', X12, "        tmp = self.err_list\n        self.err_list = []\n        return tmp", "        tmp = self.err_list\n        return tmp", B, 'C04.R11'),
+    ('c04-pop-copy-clear', 'C04', X12, "        tmp = self.err_list\n        self.err_list = []\n        return tmp", "        tmp = list(self.err_list)\n        del self.err_list[:]\n        return tmp", OK, None),
+    ('c04-pop-swap', 'C04', X12, "        tmp = self.err_list\n        self.err_list = []\n        return tmp", "        errors, self.err_list = self.err_list, []\n        return errors", OK, None),
+    ('c04-gs-error-once', 'C04', X12, "        self.err_list.append(('gs', err_cde, err_str, None, None))", "        if ('gs', err_cde, err_str, None, None) not in self.err_list:\n            self.err_list.append(('gs', err_cde, err_str, None, None))", B, 'C04.R11'),
+    ('c05-close-st-current', 'C05', EH, "        self.cur_st_node.close(node, seg, src)\n        self.cur_seg_node = self.cur_st_node", "        self.cur_st_node.close(node, seg, src)\n        self.cur_seg_node = self.cur_gs_node", B, 'C05.R18'),
+    ('c05-add-gs-current-benign', 'C05', EH, "        self.cur_gs_node = parent.children[-1]\n        self.cur_seg_node = self.cur_gs_node", "        node = parent.children[-1]\n        self.cur_seg_node = node\n        self.cur_gs_node = node", OK, None),
+    ('c10-select-type-order', 'C10', CTX, "                if child.type == 'seg':\n                    (is_match, qual_code, ele_idx, subele_idx) = child.x12_map_node.is_match_qual(child.seg_data, cur_node_id, qual)\n                    if is_match:\n                        yield child\n                else:\n                    if child.id == cur_node_id:\n                        yield child",
+     "                if child.type == 'seg':\n                    (is_match, qual_code, ele_idx, subele_idx) = child.x12_map_node.is_match_qual(child.seg_data, cur_node_id, qual)\n                    if is_match:\n                        yield child\n                        return\n                else:\n                    if child.id == cur_node_id:\n                        yield child", B, 'C10.R9'),
+    ('c12-format-concat-benign', 'C12', SEG, "        return '%s%s%s%s' % (self.seg_id, ele_term, ele_term.join(str_elems), seg_term)", "        return self.seg_id + ele_term + ele_term.join(str_elems) + seg_term", OK, None),
+    ('c12-format-braces', 'C12', SEG, "        return '%s%s%s%s' % (self.seg_id, ele_term, ele_term.join(str_elems), seg_term)", "        return ('{}' + ele_term + '{}' + seg_term).format(self.seg_id, ele_term.join(str_elems))", B, 'C12.R9'),
+    ('c15-not-match-ascii-shortcut', 'C15', VAL, "    if short_data_type in ('ID', 'AN'):\n        if charset == 'E':", "    if short_data_type in ('ID', 'AN'):\n        if val.isdigit():\n            return False\n        if charset == 'E':", B, 'C15.R10'),
+    ('c17-len-benign', 'C17', SEG, "        return len(self.elements)\n\n    def get_seg_id(self):", "        count = 0\n        for _ele in self.elements:\n            count += 1\n        return count\n\n    def get_seg_id(self):", OK, None),
+    ('c17-init-skip-empty', 'C17', SEG, "            else:\n                self.elements.append(Composite(ele, subele_term))\n\n    def __eq__(self, other):\n        if isinstance(other, Segment):", "            elif ele or True:\n                self.elements.append(Composite(ele or '', subele_term))\n\n    def __eq__(self, other):\n        if isinstance(other, Segment):", OK, None),
+    ('c08-elem-raw-content', 'C08', XMW, "self._write(\">{}</{}>\\n\".format(self._escape_cont(content), elem))", "self._write(\">{}</{}>\\n\".format(content, elem))", B, 'C08.R2'),
+    ('c08-elem-fstring-benign', 'C08', XMW, "self._write(\">{}</{}>\\n\".format(self._escape_cont(content), elem))", "text = self._escape_cont(content)\n        self._write(f'>{text}</{elem}>\\n')", OK, None),
+    ('c08-push-double-quote', 'C08', XMW, "        for (a, v) in attrs.items():\n            self._write(\" {}='{}'\".format(a, self._escape_attr(v)))\n        self._write(\">\\n\")", "        for (a, v) in attrs.items():\n            self._write(' {}=\"{}\"'.format(a, self._escape_attr(v)))\n        self._write(\">\\n\")", B, 'C08.R2'),
+    ('c10-count-from-one', 'C10', CTX, "        ct = 0\n        (curr, new_path) = self._get_start_node(x12_path_str)", "        ct = 1\n        (curr, new_path) = self._get_start_node(x12_path_str)", B, 'C10.R10'),
+    ('c10-exists-any-benign', 'C10', CTX, "        for n in curr._select(xpath):\n            return True\n        return False", "        return any(True for _n in curr._select(xpath))", OK, None),
+    ('c10-first-skips', 'C10', CTX, "        for node in self.select(x12_path_str):\n            return node", "        found = None\n        for node in self.select(x12_path_str):\n            found = node\n        return found", B, 'C10.R10'),
+    ('c17-blank-is-empty', 'C17', SEG, "        if self.value is not None and self.value != '':\n            return False", "        if self.value is not None and self.value.strip() != '':\n            return False", B, 'C17.R9'),
+    ('c17-get-off-by-one', 'C17', SEG, "        if ele_idx >= self.__len__():\n            return None", "        if ele_idx > self.__len__():\n            return None", B, 'C17.R9'),
+    ('c17-get-len-benign', 'C17', SEG, "        if ele_idx >= self.__len__():\n            return None", "        if not ele_idx < len(self):\n            return None", OK, None),
+    ('c17-segment-empty-any-benign', 'C17', SEG, "        if len(self.elements) == 0:\n            return True\n        for ele in self.elements:\n            if not ele.is_empty():\n                return False\n        return True\n\n    def is_seg_id_valid(self):", "        return all(ele.is_empty() for ele in self.elements)\n\n    def is_seg_id_valid(self):", OK, None),
+    ('c10-qual-ignores-value', 'C10', MIF, "                if qual_code in self.children[0].valid_codes and seg_data.get_value('01') == qual_code:\n                    return (True, qual_code, 1, None)", "                if qual_code in self.children[0].valid_codes:\n                    return (True, qual_code, 1, None)", B, 'C10.R11'),
+    ('c10-qual-hl-position', 'C10', MIF, "                    return (True, qual_code, 3, None)", "                    return (True, qual_code, 2, None)", B, 'C10.R11'),
+    ('c10-set-keeps-qualifier', 'C10', CTX, "        xpath.loop_list = []\n        xpath.id_val = None\n        seg_part = xpath.format()\n        seg_data.set(seg_part, val)", "        xpath.loop_list = []\n        seg_part = xpath.format()\n        seg_data.set(seg_part, val)", B, 'C10.R12'),
+    ('c10-get-none-benign', 'C10', CTX, "        seg_data = self.get_first_matching_segment(x12_path_str)\n        if seg_data is None:\n            return None\n        return seg_data.get_value(x12_path_str)", "        seg_data = self.get_first_matching_segment(x12_path_str)\n        return None if seg_data is None else seg_data.get_value(x12_path_str)", OK, None),
+    ('c10-segnode-set-silent', 'C10', CTX, "        if seg_data is None:\n            raise errors.X12PathError('X12 Path is invalid or was not found: %s' % (x12_path_str))\n        #ele_idx = self.get_ele_idx(x12_path_str)", "        if seg_data is None:\n            return\n        #ele_idx = self.get_ele_idx(x12_path_str)", B, 'C10.R12'),
+    ('c05-gs-id-last-loop', 'C05', X12, "        for loop in self.loops:\n            if loop[0] == 'GS':\n                return loop[1]\n        return None", "        for loop in self.loops:\n            if loop[0] in ('GS', 'ST'):\n                return loop[1]\n        return None", B, 'C05.R19'),
+    ('c09-cur-line-getter', 'C09', X12, "        return self.cur_line\n\n    def get_term(self):", "        return self.cur_line + 1\n\n    def get_term(self):", B, 'C09.R13'),
+    ('c15-control-only-leading', 'C15', VAL, "    for (k, v) in control_base.items():\n        if k in str_val:", "    for (k, v) in control_base.items():\n        if str_val.startswith(k):", B, 'C15.R11'),
+    ('c15-control-one-loop-benign', 'C15', VAL, "    for (k, v) in control_base.items():\n        if k in str_val:\n            return (True, \"<{}>\".format(v))\n    for (k, v) in extended_base.items():\n        if k in str_val:\n            return (True, \"<{}>\".format(v))\n    return (False, None)",
+     "    for table in (control_base, extended_base):\n        for (k, v) in table.items():\n            if k in str_val:\n                return (True, \"<{}>\".format(v))\n    return (False, None)", OK, None),
+    ('c10-delete-node-all', 'C10', CTX, "        for n in curr._select(xpath):\n            n.delete()\n            return True\n        return False", "        found = False\n        for n in curr._select(xpath):\n            n.delete()\n            found = True\n        return found", B, 'C10.R13'),
+    ('c10-delete-keeps-type', 'C10', CTX, "        self.x12_map_node = None\n        self.type = None\n        self.seg_data = None", "        self.x12_map_node = None\n        self.seg_data = None", B, 'C10.R13'),
+    ('c08-loop-repeat-branch-redundant-benign', 'C08', XMS, "        if self.last_path == cur_path and seg_node.is_first_seg_in_loop():", "        if self.last_path == cur_path and seg_node.is_first_seg_in_loop() and False:", OK, None),
+    ('c08-new-parent-instance-not-reopened', 'C08', XMS, "            if seg_node.is_first_seg_in_loop() and root_path == cur_path:\n                match_idx -= 1\n", "", B, 'C08.R11'),
+    ('c08-loop-close-one-short', 'C08', XMS, "            for i in range(len(last_path) - 1, match_idx - 1, -1):\n                self.writer.pop()", "            for i in range(len(last_path) - 1, match_idx, -1):\n                self.writer.pop()", B, 'C08.R11'),
+    ('c08-loop-pops-count-benign', 'C08', XMS, "            for i in range(len(last_path) - 1, match_idx - 1, -1):\n                self.writer.pop()", "            for _n in range(match_idx, len(last_path)):\n                self.writer.pop()", OK, None),
+    ('c08-notused-written', 'C08', XMS, "            if child_node.usage == 'N' or seg_data.get('%02i' % (i + 1)).is_empty():", "            if seg_data.get('%02i' % (i + 1)).is_empty():", B, 'C08.R12'),
+    ('c08-subele-wrong-id', 'C08', XMS, "                    (xname, attrib) = self._get_subele_info(subele_node.id)", "                    (xname, attrib) = self._get_subele_info(child_node.id)", B, 'C08.R12'),
+    ('c01-iter-blank-not-stripped', 'C01', X12, "                line = line.lstrip()\n", "", B, 'C01.R11'),
+    ('c01-iter-seg1-line', 'C01', X12, "                self._seg_error('SEG1', err_str, None, src_line=self.cur_line + 1)", "                self._seg_error('SEG1', err_str, None, src_line=self.cur_line)", B, 'C01.R11'),
+    ('c01-iter-startswith-benign', 'C01', X12, "            if line.startswith(' '):", "            if line[:1] == ' ':", OK, None),
 ]
